@@ -4,6 +4,7 @@ import (
 	"fmt"
 	"go/token"
 	"go/types"
+	"os"
 	"sort"
 	"strings"
 
@@ -28,6 +29,9 @@ func (fx *FnExec) sigNames() (recvName string, recv *types.Var, params []*types.
 
 func (fx *FnExec) run() (err error) {
 	defer func() {
+		if os.Getenv("GOVC_PANIC") != "" {
+			return
+		}
 		if r := recover(); r != nil {
 			err = fmt.Errorf("engine panic in %s: %v", fx.key, r)
 		}
@@ -212,6 +216,11 @@ func (fx *FnExec) localByName(name string) (Val, bool) {
 		}
 	}
 	if len(found) == 1 {
+		if in, ok := found[0].(ssa.Instruction); ok && fx.curBlock != nil {
+			if in.Block() != fx.curBlock && !in.Block().Dominates(fx.curBlock) {
+				return Val{}, false
+			}
+		}
 		return fx.val(found[0]), true
 	}
 	if len(found) > 1 && fx.curBlock != nil {
@@ -439,6 +448,10 @@ func (fx *FnExec) loopHeader(b *ssa.BasicBlock, li *loopInfo, edges []inEdge) er
 		v := fx.freshVal(p.Type(), "loop."+name)
 		fx.vals[p] = v
 		fx.assume(fx.wellTyped(v, &fx.cur))
+		if p.Comment == "rangeindex" && len(v.L) == 1 {
+			// the hidden index of a range loop starts at -1 and only grows
+			fx.assume(sLe("(- 1)", v.L[0]))
+		}
 	}
 	// implicit invariant: outside the function's modifies set nothing has changed since entry
 	if fc := fx.frameContract(); fc != nil && !li.modAll {
@@ -586,6 +599,18 @@ func (fx *FnExec) instr(in ssa.Instruction) error {
 		return nil
 	case *ssa.Alloc:
 		et := elemOf(x.Type())
+		if nonEscaping(x, 0) {
+			base := fx.localBase(x)
+			for _, l := range fx.e.leaves(et) {
+				n := localLeafName(base, l.Path)
+				fx.e.heapSort[n] = l.Sort
+				fx.localNames[n] = true
+			}
+			pv := Val{T: x.Type(), Loc: &Loc{Kind: LLocal, Local: base, LocalT: et}}
+			fx.store(&fx.cur, pv, fx.zeroVal(et))
+			fx.set(x, pv)
+			return nil
+		}
 		r := fx.alloc(&fx.cur)
 		pv := Val{T: x.Type(), L: []string{r}}
 		fx.store(&fx.cur, pv, fx.zeroVal(et))
@@ -594,6 +619,11 @@ func (fx *FnExec) instr(in ssa.Instruction) error {
 		base := fx.val(x.X)
 		owner := elemOf(x.X.Type())
 		st, ok := fx.structOf(owner)
+		if ok && base.Loc != nil && base.Loc.Kind == LLocal {
+			f := st.Field(x.Field)
+			fx.set(x, Val{T: x.Type(), Loc: &Loc{Kind: LLocal, Local: localLeafName(base.Loc.Local, f.Name()), LocalT: f.Type()}})
+			return nil
+		}
 		if !ok || base.Loc != nil {
 			fx.abstract("field address of non-struct or of address value")
 			fx.set(x, fx.freshVal(x.Type(), "fa"))
@@ -641,6 +671,9 @@ func (fx *FnExec) instr(in ssa.Instruction) error {
 		for i := len(fx.defers) - 1; i >= 0; i-- {
 			d := fx.defers[i]
 			if d.Block() != fx.fn.Blocks[0] && !d.Block().Dominates(fx.curBlock) {
+				if !fx.reaches(d.Block(), fx.curBlock) {
+					continue // this defer statement cannot have run on any path to here
+				}
 				fx.abstract("conditional defer")
 				fx.havocAll(&fx.cur)
 				continue
@@ -653,7 +686,11 @@ func (fx *FnExec) instr(in ssa.Instruction) error {
 		fx.set(x, fx.makeInterface(fx.plain(fx.val(x.X)), x.Type()))
 	case *ssa.ChangeInterface:
 		v := fx.val(x.X)
-		fx.set(x, Val{T: x.Type(), L: v.L})
+		if len(v.L) != 2 {
+			fx.set(x, fx.makeInterface(fx.plain(v), x.Type()))
+		} else {
+			fx.set(x, Val{T: x.Type(), L: v.L})
+		}
 	case *ssa.ChangeType:
 		v := fx.val(x.X)
 		fx.set(x, Val{T: x.Type(), L: v.L, Fn: v.Fn})
@@ -844,7 +881,7 @@ func (fx *FnExec) typeAssert(x *ssa.TypeAssert) error {
 	var cond string
 	var res Val
 	if isInterface(at) {
-		if fx.e.isRepoType(at) {
+		if fx.e.closedWorld(at) {
 			ids := fx.e.implementors(at)
 			var alts []string
 			for _, id := range ids {
@@ -1056,7 +1093,7 @@ func (fx *FnExec) valuesEqual(a, b Val, t types.Type) string {
 		}
 		return a.L[0]
 	}
-	if isInterface(t) {
+	if isInterface(t) && len(a.L) == 2 && len(b.L) == 2 {
 		// identical dynamic type and payload
 		return sAnd(sEq(a.L[0], b.L[0]), sEq(a.L[1], b.L[1]))
 	}
@@ -1257,4 +1294,29 @@ func (fx *FnExec) next(x *ssa.Next) error {
 	}
 	fx.set(x, r)
 	return nil
+}
+
+// reaches: is there a path from a to b (ignoring back edges)
+func (fx *FnExec) reaches(a, b *ssa.BasicBlock) bool {
+	seen := map[*ssa.BasicBlock]bool{}
+	var walk func(x *ssa.BasicBlock) bool
+	walk = func(x *ssa.BasicBlock) bool {
+		if x == b {
+			return true
+		}
+		if seen[x] {
+			return false
+		}
+		seen[x] = true
+		for _, s := range x.Succs {
+			if fx.isBackEdge(x, s) {
+				continue
+			}
+			if walk(s) {
+				return true
+			}
+		}
+		return false
+	}
+	return walk(a)
 }
